@@ -400,7 +400,10 @@ func (la *lockAnalysis) analyse(fn *ssa.Function) *lockFacts {
 				break
 			}
 		}
-		if consistent && val != 0 && len(f.returns) > 0 {
+		// only unexported helpers can be lock wrappers ("returns holding the
+		// lock, caller must release"); an exported function leaving a lock held
+		// is a leak, whatever its shape
+		if consistent && val != 0 && len(f.returns) > 0 && !isExportedEntry(fn) && fn.Parent() == nil {
 			sum[k] = val
 		}
 	}
